@@ -4,6 +4,7 @@
 //	c28stress LIN    <component> <seed> <threads> <opsPerThread>   short history, checked for linearizability
 //	c28stress STRESS <component> <seed> <threads> <opsPerThread>   long workload, race detection only
 //	c28stress EBMID                                                  deterministic EventsBuffer mid-push scenario
+//	c28stress SNAPMID                                                deterministic Flushable.GetSnapshot vs Flush scenario (parent snapshot blocks)
 //
 // components: flushable lazy pool wlru sem buffer.  The real lachesis-base objects are driven by
 // <threads> goroutines; every goroutine executes a list of operations that is a function of the
@@ -114,6 +115,8 @@ func oneCase(args []string) {
 	switch {
 	case args[0] == "EBMID":
 		ebMid()
+	case args[0] == "SNAPMID":
+		snapMid()
 	case (args[0] == "LIN" || args[0] == "STRESS") && len(args) >= 5:
 		seed, _ := strconv.ParseInt(args[2], 10, 64)
 		threads, _ := strconv.Atoi(args[3])
